@@ -50,7 +50,9 @@ func evalC04(c c04Case) *Failure {
 		srv.SetAuthCommandHandler(rec)
 		next := 0
 		rec.ResultFn = func(cl *doubles.Call) doubles.Result {
-			if cl.Frames < len(c.Stream) && passThroughNames[firstName(c.Stream[cl.Frames])] && next < len(c.Results) {
+			// scripted results apply to every handler call, also those made on behalf of composed commands
+			// (MGET, HMGET, INCR, HKEYS, ...): whatever a handler returns must not break the framing
+			if cl.Frames < len(c.Stream) && next < len(c.Results) {
 				r := c.Results[next]
 				next++
 				res := doubles.Result{Nil: r.Nil, Val: r.Val}
